@@ -108,4 +108,380 @@ theorem man_recurses_over_visible_commands (E : Env) (P : Parser) (fuel root : N
     ∃ f : Nat → Bytes, manCommandsFuel E P (fuel + 1) root name pfx = (P.sortedVisibleCommands root).flatMap f :=
   ⟨_, rfl⟩
 
+
+/-! ### Whole help texts: every visible item is in the text -/
+
+theorem infix_flatMap {α} (f : α → Bytes) (l : List α) (x : α) (h : x ∈ l) : f x <:+: l.flatMap f := by
+  induction l with
+  | nil => simp at h
+  | cons y ys ih =>
+    simp only [List.flatMap_cons]
+    rcases List.mem_cons.mp h with rfl | h
+    · exact ⟨[], List.flatMap f ys, by simp⟩
+    · obtain ⟨a, b, hab⟩ := ih h
+      exact ⟨f y ++ a, b, by simp [← hab, List.append_assoc]⟩
+
+/-- the row of a subcommand in the "Available commands" list -/
+def commandRow (P : Parser) (maxlen : Nat) (i : Nat) : Bytes :=
+  let c := P.cmd i
+  B "  " ++ c.name ++
+  (if c.shortDesc ≠ [] then
+    spaces (maxlen - c.name.length) ++ B "  " ++ c.shortDesc ++
+      (if c.aliases ≠ [] then B " (aliases: " ++ join (B ", ") c.aliases ++ B ")" else [])
+   else []) ++ [0x0A]
+
+/-- **Every non-hidden subcommand of the innermost active command is listed**, with its
+    description and — beside it — its aliases: whenever `WriteHelp` produces a text at all, the row
+    of each visible subcommand is part of that text. -/
+theorem every_visible_subcommand_is_listed (P : Parser) (termCols : Int) (text : Bytes) (i : Nat)
+    (h : writeHelp P termCols = some text)
+    (hv : i ∈ P.visibleCommands (P.activeChain.getLastD 0)) :
+    ∃ maxlen, commandRow P maxlen i <:+: text := by
+  have hs : i ∈ P.sortedVisibleCommands (P.activeChain.getLastD 0) :=
+    (sorted_visible_commands_same_members P _ i).mpr hv
+  unfold writeHelp at h
+  simp only at h
+  split at h
+  · simp at h
+  · next body info' hb =>
+    simp only [Option.some.injEq] at h
+    have hne : P.sortedVisibleCommands (P.activeChain.getLastD 0) ≠ [] := by
+      intro e; rw [e] at hs; simp at hs
+    simp only [hne, if_false] at h
+    refine ⟨((P.sortedVisibleCommands (P.activeChain.getLastD 0)).map fun i => (P.cmd i).name.length).foldl max 0, ?_⟩
+    rw [← h]
+    apply List.infix_append_of_infix_right
+    apply List.infix_append_of_infix_right
+    exact infix_flatMap (commandRow P _) _ i hs
+
+
+
+theorem foldl_none {α β} (f : Option β → α → Option β) (hf : ∀ a, f none a = none) (l : List α) :
+    l.foldl f none = none := by
+  induction l with
+  | nil => rfl
+  | cons a l ih => simp [List.foldl_cons, hf, ih]
+
+/-- the step of `helpArgsOfCmd` -/
+def argStep (info : AlignInfo) (acc : Option Bytes) (a : ArgD) : Option Bytes :=
+  match acc with
+  | none => none
+  | some out =>
+    let argPrefix := B "  " ++ a.name ++ B ":"
+    match repeatSp (((info.descriptionStart + 2 : Nat) : Int) - runeCount argPrefix) with
+    | none => none
+    | some pad =>
+      some (out ++ argPrefix ++ pad ++
+        wrapText a.desc ((info.cols : Int) - 1 - (info.descriptionStart + 2 : Nat)) (spaces (info.descriptionStart + 2)) ++ [0x0A])
+
+theorem argStep_fold (info : AlignInfo) (l : List ArgD) :
+    ∀ (acc t : Bytes), l.foldl (argStep info) (some acc) = some t →
+      acc <+: t ∧ ∀ a ∈ l, (B "  " ++ a.name ++ B ":") <:+: t := by
+  induction l with
+  | nil =>
+    intro acc t h
+    simp only [List.foldl_nil, Option.some.injEq] at h
+    subst h
+    exact ⟨List.prefix_refl _, by simp⟩
+  | cons a l ih =>
+    intro acc t h
+    simp only [List.foldl_cons] at h
+    cases hs : argStep info (some acc) a with
+    | none =>
+      rw [hs, foldl_none (argStep info) (fun _ => rfl)] at h
+      cases h
+    | some acc' =>
+      rw [hs] at h
+      obtain ⟨hp, hall⟩ := ih acc' t h
+      -- acc' extends acc by this argument's row
+      have hacc' : ∃ rest, acc' = acc ++ (B "  " ++ a.name ++ B ":") ++ rest := by
+        unfold argStep at hs
+        simp only at hs
+        split at hs
+        · cases hs
+        · next pad _ =>
+          simp only [Option.some.injEq] at hs
+          exact ⟨pad ++ wrapText a.desc ((info.cols : Int) - 1 - (info.descriptionStart + 2 : Nat)) (spaces (info.descriptionStart + 2)) ++ [0x0A],
+            by rw [← hs]; simp [List.append_assoc]⟩
+      obtain ⟨rest, hr⟩ := hacc'
+      obtain ⟨tail, ht⟩ := hp
+      refine ⟨⟨(B "  " ++ a.name ++ B ":") ++ rest ++ tail, by rw [← ht, hr]; simp [List.append_assoc]⟩, ?_⟩
+      intro x hx
+      rcases List.mem_cons.mp hx with rfl | hx
+      · exact ⟨acc, rest ++ tail, by rw [← ht, hr]; simp [List.append_assoc]⟩
+      · exact hall x hx
+
+theorem helpArgsOfCmd_eq (P : Parser) (ci : Nat) (info : AlignInfo) :
+    helpArgsOfCmd P ci info =
+      (if ((P.cmd ci).args.filter fun a => a.desc ≠ []) = [] then some [] else
+        ((P.cmd ci).args.filter fun a => a.desc ≠ []).foldl (argStep info)
+          (some (if ci = 0 then B "\nArguments:\n" else B "\n[" ++ (P.cmd ci).name ++ B " command arguments]\n"))) := by
+  unfold helpArgsOfCmd argStep
+  rfl
+
+/-- every described positional argument of a command has its row in that command's argument block -/
+theorem described_argument_in_block (P : Parser) (ci : Nat) (info : AlignInfo) (t : Bytes) (a : ArgD)
+    (h : helpArgsOfCmd P ci info = some t) (ha : a ∈ (P.cmd ci).args) (hd : a.desc ≠ []) :
+    (B "  " ++ a.name ++ B ":") <:+: t := by
+  rw [helpArgsOfCmd_eq] at h
+  have hmem : a ∈ (P.cmd ci).args.filter fun a => a.desc ≠ [] := by
+    simp [List.mem_filter, ha, hd]
+  split at h
+  · next hnil => rw [hnil] at hmem; simp at hmem
+  · exact (argStep_fold info _ _ t h).2 a hmem
+
+
+
+/-- the step of the loop over the active chain in `WriteHelp` -/
+def bodyStep (P : Parser) (innermost : Nat) (acc : Option (Bytes × AlignInfo)) (ci : Nat) : Option (Bytes × AlignInfo) :=
+  match acc with
+  | none => none
+  | some (out, info) =>
+    match helpOptionsOfCmd P innermost ci info with
+    | none => none
+    | some (t, info) =>
+      match helpArgsOfCmd P ci info with
+      | none => none
+      | some a => some (out ++ t ++ a, info)
+
+theorem infix_of_infix_of_prefix {a b c : Bytes} (h1 : a <:+: b) (h2 : b <+: c) : a <:+: c := by
+  obtain ⟨x, y, hxy⟩ := h1
+  obtain ⟨z, hz⟩ := h2
+  exact ⟨x, y ++ z, by rw [← hz, ← hxy]; simp [List.append_assoc]⟩
+
+theorem bodyStep_fold (P : Parser) (innermost : Nat) (chain : List Nat) :
+    ∀ (acc : Bytes) (info : AlignInfo) (t : Bytes) (info' : AlignInfo),
+      chain.foldl (bodyStep P innermost) (some (acc, info)) = some (t, info') →
+      acc <+: t ∧ ∀ ci ∈ chain, ∃ infoA infoO opts args, helpOptionsOfCmd P innermost ci infoO = some (opts, infoA) ∧
+        helpArgsOfCmd P ci infoA = some args ∧ opts <:+: t ∧ args <:+: t := by
+  induction chain with
+  | nil =>
+    intro acc info t info' h
+    simp only [List.foldl_nil, Option.some.injEq, Prod.mk.injEq] at h
+    obtain ⟨rfl, _⟩ := h
+    exact ⟨List.prefix_refl _, by simp⟩
+  | cons ci chain ih =>
+    intro acc info t info' h
+    simp only [List.foldl_cons] at h
+    cases hs : bodyStep P innermost (some (acc, info)) ci with
+    | none =>
+      rw [hs, foldl_none (bodyStep P innermost) (fun _ => rfl)] at h
+      cases h
+    | some r =>
+      obtain ⟨acc', info1⟩ := r
+      rw [hs] at h
+      obtain ⟨hp, hall⟩ := ih acc' info1 t info' h
+      unfold bodyStep at hs
+      simp only at hs
+      cases ho : helpOptionsOfCmd P innermost ci info with
+      | none => rw [ho] at hs; cases hs
+      | some r2 =>
+        obtain ⟨opts, infoA⟩ := r2
+        rw [ho] at hs
+        simp only at hs
+        cases ha : helpArgsOfCmd P ci infoA with
+        | none => rw [ha] at hs; cases hs
+        | some args =>
+          rw [ha] at hs
+          simp only [Option.some.injEq, Prod.mk.injEq] at hs
+          obtain ⟨hacc', _⟩ := hs
+          have hpre : acc <+: acc' := ⟨opts ++ args, by rw [← hacc']; simp [List.append_assoc]⟩
+          refine ⟨List.IsPrefix.trans hpre hp, ?_⟩
+          intro x hx
+          rcases List.mem_cons.mp hx with rfl | hx
+          · refine ⟨infoA, info, opts, args, ho, ha, ?_, ?_⟩
+            · exact infix_of_infix_of_prefix ⟨acc, args, by rw [← hacc']⟩ hp
+            · exact infix_of_infix_of_prefix ⟨acc ++ opts, [], by rw [← hacc']; simp [List.append_assoc]⟩ hp
+          · exact hall x hx
+
+/-- **Every described positional argument of every command of the active chain is listed**: whenever
+    `WriteHelp` produces a text, it contains the row `  name:` of each positional argument that has a
+    description — whatever comes before it (described or not) in the declaration. -/
+theorem every_described_argument_is_listed (P : Parser) (termCols : Int) (text : Bytes) (ci : Nat) (a : ArgD)
+    (h : writeHelp P termCols = some text) (hc : ci ∈ P.activeChain)
+    (ha : a ∈ (P.cmd ci).args) (hd : a.desc ≠ []) :
+    (B "  " ++ a.name ++ B ":") <:+: text := by
+  unfold writeHelp at h
+  simp only at h
+  split at h
+  · cases h
+  · next body info' hb =>
+    simp only [Option.some.injEq] at h
+    have hfold : P.activeChain.foldl (bodyStep P (P.activeChain.getLastD 0)) (some ([], getAlignmentInfo P termCols)) = some (body, info') := hb
+    obtain ⟨_, hall⟩ := bodyStep_fold P _ P.activeChain [] _ body info' hfold
+    obtain ⟨infoA, infoO, opts, args, _, hargs, _, hin⟩ := hall ci hc
+    have hrow := described_argument_in_block P ci infoA args a hargs ha hd
+    obtain ⟨x, y, hxy⟩ := hrow
+    obtain ⟨u, v, huv⟩ := hin
+    rw [← h]
+    have hinb : (B "  " ++ a.name ++ B ":") <:+: body :=
+      ⟨u ++ x, y ++ v, by rw [← huv, ← hxy]; simp [List.append_assoc]⟩
+    exact List.infix_append_of_infix_left (List.infix_append_of_infix_right hinb)
+
+
+
+theorem go_rows (P : Parser) (innermost ci : Nat) (c : Cmd) (g : Grp) (gi : Nat) (ois : List Nat) :
+    ∀ (out : Bytes) (info : AlignInfo) (printcmd first : Bool) (out' : Bytes) (info' : AlignInfo) (pc' : Bool),
+      helpOptionsOfCmd.go P innermost ci c g gi ois out info printcmd first = some (out', info', pc') →
+      out <+: out' ∧ ∀ oi ∈ ois, (g.opts.getD oi {}).showInHelp = true →
+        ∃ infoR row, writeHelpOption P ⟨ci, gi, oi⟩ infoR = some row ∧ row <:+: out' := by
+  induction ois with
+  | nil =>
+    intro out info printcmd first out' info' pc' h
+    unfold helpOptionsOfCmd.go at h
+    simp only [Option.some.injEq, Prod.mk.injEq] at h
+    obtain ⟨rfl, _, _⟩ := h
+    exact ⟨List.prefix_refl _, by simp⟩
+  | cons oi ois ih =>
+    intro out info printcmd first out' info' pc' h
+    unfold helpOptionsOfCmd.go at h
+    simp only at h
+    by_cases hshow : (g.opts.getD oi {}).showInHelp = true
+    · simp only [hshow, Bool.not_true, Bool.false_eq_true, if_false] at h
+      -- the headers that may be inserted first
+      generalize hhdr : (if printcmd = true then (out ++ B "\n[" ++ c.name ++ B " command options]\n", ({ info with indent := true } : AlignInfo), false)
+          else (out, info, printcmd)) = hd at h
+      obtain ⟨out1, info1, pc1⟩ := hd
+      simp only at h
+      have hp1 : out <+: out1 := by
+        split at hhdr
+        · simp only [Prod.mk.injEq] at hhdr; rw [← hhdr.1]
+          exact ⟨B "\n[" ++ c.name ++ B " command options]\n", by simp [List.append_assoc]⟩
+        · simp only [Prod.mk.injEq] at hhdr; rw [← hhdr.1]; exact List.prefix_refl _
+      generalize hhdr2 : (if (first && !(decide (ci = innermost) && decide (gi = 0))) = true then
+          (out1 ++ B "\n" ++ (if info1.indent = true then B "    " else []) ++ g.shortDesc ++ B ":\n", false)
+          else (out1, first)) = hd2 at h
+      obtain ⟨out2, first2⟩ := hd2
+      simp only at h
+      have hp2 : out1 <+: out2 := by
+        split at hhdr2
+        · simp only [Prod.mk.injEq] at hhdr2; rw [← hhdr2.1]
+          exact ⟨B "\n" ++ (if info1.indent = true then B "    " else []) ++ g.shortDesc ++ B ":\n", by simp [List.append_assoc]⟩
+        · simp only [Prod.mk.injEq] at hhdr2; rw [← hhdr2.1]; exact List.prefix_refl _
+      cases hw : writeHelpOption P ⟨ci, gi, oi⟩ info1 with
+      | none => rw [hw] at h; cases h
+      | some row =>
+        rw [hw] at h
+        simp only at h
+        obtain ⟨hp3, hall⟩ := ih (out2 ++ row) info1 pc1 first2 out' info' pc' h
+        refine ⟨(hp1.trans hp2).trans (List.IsPrefix.trans ⟨row, rfl⟩ hp3), ?_⟩
+        intro x hx hsx
+        rcases List.mem_cons.mp hx with rfl | hx
+        · exact ⟨info1, row, hw, infix_of_infix_of_prefix ⟨out2, [], by simp⟩ hp3⟩
+        · exact hall x hx hsx
+    · have hs : (g.opts.getD oi {}).showInHelp = false := Bool.eq_false_iff.mpr hshow
+      simp only [hs, Bool.not_false, if_true] at h
+      obtain ⟨hp, hall⟩ := ih out info printcmd first out' info' pc' h
+      refine ⟨hp, ?_⟩
+      intro x hx hsx
+      rcases List.mem_cons.mp hx with rfl | hx
+      · rw [hs] at hsx; cases hsx
+      · exact hall x hx hsx
+
+
+
+/-- the step over the groups of one command in `helpOptionsOfCmd` -/
+def grpStep (P : Parser) (innermost ci : Nat) (c : Cmd) (acc : Option (Bytes × AlignInfo × Bool)) (ggi : Grp × Nat) :
+    Option (Bytes × AlignInfo × Bool) :=
+  match acc with
+  | none => none
+  | some (out, info, printcmd) =>
+    match ggi with
+    | (g, gi) =>
+      if (g.hidden || g.isBuiltinHelp && decide (ci ≠ 0)) = true then some (out, info, printcmd)
+      else helpOptionsOfCmd.go P innermost ci c g gi (List.range g.opts.length) out info printcmd true
+
+theorem grpStep_fold (P : Parser) (innermost ci : Nat) (c : Cmd) (l : List (Grp × Nat)) :
+    ∀ (acc : Bytes) (info : AlignInfo) (pc : Bool) (out' : Bytes) (info' : AlignInfo) (pc' : Bool),
+      l.foldl (grpStep P innermost ci c) (some (acc, info, pc)) = some (out', info', pc') →
+      acc <+: out' ∧ ∀ ggi ∈ l, (ggi.1.hidden || ggi.1.isBuiltinHelp && decide (ci ≠ 0)) = false →
+        ∀ oi, oi < ggi.1.opts.length → (ggi.1.opts.getD oi {}).showInHelp = true →
+          ∃ infoR row, writeHelpOption P ⟨ci, ggi.2, oi⟩ infoR = some row ∧ row <:+: out' := by
+  induction l with
+  | nil =>
+    intro acc info pc out' info' pc' h
+    simp only [List.foldl_nil, Option.some.injEq, Prod.mk.injEq] at h
+    obtain ⟨rfl, _, _⟩ := h
+    exact ⟨List.prefix_refl _, by simp⟩
+  | cons ggi l ih =>
+    intro acc info pc out' info' pc' h
+    simp only [List.foldl_cons] at h
+    cases hs : grpStep P innermost ci c (some (acc, info, pc)) ggi with
+    | none =>
+      rw [hs, foldl_none (grpStep P innermost ci c) (fun _ => rfl)] at h
+      cases h
+    | some r =>
+      obtain ⟨acc1, info1, pc1⟩ := r
+      rw [hs] at h
+      obtain ⟨hp, hall⟩ := ih acc1 info1 pc1 out' info' pc' h
+      obtain ⟨g, gi⟩ := ggi
+      unfold grpStep at hs
+      simp only at hs
+      by_cases hhid : (g.hidden || g.isBuiltinHelp && decide (ci ≠ 0)) = true
+      · simp only [hhid, if_true, Option.some.injEq, Prod.mk.injEq] at hs
+        obtain ⟨rfl, _, _⟩ := hs
+        refine ⟨hp, ?_⟩
+        intro x hx hnh
+        rcases List.mem_cons.mp hx with rfl | hx
+        · simp only at hnh; rw [hnh] at hhid; cases hhid
+        · exact hall x hx hnh
+      · simp only [hhid, if_false] at hs
+        obtain ⟨hp0, hrows⟩ := go_rows P innermost ci c g gi _ acc info pc true acc1 info1 pc1 hs
+        refine ⟨hp0.trans hp, ?_⟩
+        intro x hx hnh
+        rcases List.mem_cons.mp hx with rfl | hx
+        · intro oi hoi hshow
+          obtain ⟨infoR, row, hw, hin⟩ := hrows oi (List.mem_range.mpr hoi) hshow
+          exact ⟨infoR, row, hw, infix_of_infix_of_prefix hin hp⟩
+        · exact hall x hx hnh
+
+theorem helpOptionsOfCmd_rows (P : Parser) (innermost ci : Nat) (info infoA : AlignInfo) (opts : Bytes)
+    (h : helpOptionsOfCmd P innermost ci info = some (opts, infoA))
+    (g : Grp) (gi : Nat) (hg : (g, gi) ∈ (P.cmd ci).groups.zipIdx)
+    (hnh : (g.hidden || g.isBuiltinHelp && decide (ci ≠ 0)) = false)
+    (oi : Nat) (hoi : oi < g.opts.length) (hshow : (g.opts.getD oi {}).showInHelp = true) :
+    ∃ infoR row, writeHelpOption P ⟨ci, gi, oi⟩ infoR = some row ∧ row <:+: opts := by
+  unfold helpOptionsOfCmd at h
+  simp only at h
+  have hfold : ∀ r, (P.cmd ci).groups.zipIdx.foldl (grpStep P innermost ci (P.cmd ci)) (some ([], info, decide (ci ≠ 0))) = r →
+      (match r with | none => none | some (out, info, _) => some (out, info)) = some (opts, infoA) →
+      ∃ infoR row, writeHelpOption P ⟨ci, gi, oi⟩ infoR = some row ∧ row <:+: opts := by
+    intro r hr hm
+    cases r with
+    | none => cases hm
+    | some r =>
+      obtain ⟨out', info', pc'⟩ := r
+      simp only [Option.some.injEq, Prod.mk.injEq] at hm
+      obtain ⟨rfl, _⟩ := hm
+      exact (grpStep_fold P innermost ci (P.cmd ci) _ [] info _ out' info' pc' hr).2 (g, gi) hg hnh oi hoi hshow
+  exact hfold _ rfl h
+
+/-- **Every non-hidden option of every non-hidden group along the active command chain has its row in
+    the help text**: whenever `WriteHelp` produces a text, the row rendered for the option (padding,
+    `-x`, `--namespaced-long`, `=VALUE[choices]`, description with default and environment variable:
+    `visible_row_shows_names`, `description_shows_default_and_env`) is part of that text. -/
+theorem every_visible_option_has_its_row (P : Parser) (termCols : Int) (text : Bytes) (ci : Nat)
+    (h : writeHelp P termCols = some text) (hc : ci ∈ P.activeChain)
+    (g : Grp) (gi : Nat) (hg : (g, gi) ∈ (P.cmd ci).groups.zipIdx)
+    (hnh : (g.hidden || g.isBuiltinHelp && decide (ci ≠ 0)) = false)
+    (oi : Nat) (hoi : oi < g.opts.length) (hshow : (g.opts.getD oi {}).showInHelp = true) :
+    ∃ infoR row, writeHelpOption P ⟨ci, gi, oi⟩ infoR = some row ∧ row <:+: text := by
+  unfold writeHelp at h
+  simp only at h
+  split at h
+  · cases h
+  · next body info' hb =>
+    simp only [Option.some.injEq] at h
+    have hfold : P.activeChain.foldl (bodyStep P (P.activeChain.getLastD 0)) (some ([], getAlignmentInfo P termCols)) = some (body, info') := hb
+    obtain ⟨_, hall⟩ := bodyStep_fold P _ P.activeChain [] _ body info' hfold
+    obtain ⟨infoA, infoO, opts, args, hopts, _, hin, _⟩ := hall ci hc
+    obtain ⟨infoR, row, hw, hrow⟩ := helpOptionsOfCmd_rows P _ ci infoO infoA opts hopts g gi hg hnh oi hoi hshow
+    refine ⟨infoR, row, hw, ?_⟩
+    rw [← h]
+    obtain ⟨x, y, hxy⟩ := hrow
+    obtain ⟨u, v, huv⟩ := hin
+    have hinb : row <:+: body := ⟨u ++ x, y ++ v, by rw [← huv, ← hxy]; simp [List.append_assoc]⟩
+    exact List.infix_append_of_infix_left (List.infix_append_of_infix_right hinb)
+
+
 end GoFlags.C16
